@@ -146,6 +146,8 @@ Fixpoint adapt_pb (own : maddr) (server0 : bool) (prev_pub : option maddr) (conf
          | ARefresh => if confirmed && negb changed then sm else true
          | _ => true
          end
+      (* the firewalled flag is only ever clear while the current address stands confirmed (NAT: it stays set) *)
+      && (if fw then true else confirmed')
       && (if sm && negb prev_server then (match e with ARefresh => true | _ => false end) && confirmed else true)
       && (if prev_server then sm else true)
       && (if server0 then sm else true)
